@@ -37,7 +37,7 @@ def mask(text):
     return c01.mask_ts(text)
 
 
-def oracle(lib, pop_exp, text, states, wd, tag):
+def oracle(lib, pop_exp, text, states, wd, tag, strict=False):
     """pop_exp: expected model (with blanks applied); states: {id: letter}."""
     f = os.path.join(wd, tag + ".p21")
     w = [os.path.join(wd, "%s.w%d" % (tag, i)) for i in (1, 2, 3)]
@@ -47,7 +47,7 @@ def oracle(lib, pop_exp, text, states, wd, tag):
         if os.path.exists(p):
             os.remove(p)
     st_arg = ",".join("%d:%s" % (i, s) for i, s in sorted(states.items()))
-    r = farm.drv(lib, ["ws", f, st_arg or "0:C"] + w, cwd=wd, timeout=30)
+    r = farm.drv(lib, ["ws", f, st_arg or "0:C"] + w + (["-s"] if strict else []), cwd=wd, timeout=30)
     probs = []
     try:
         if r["rc"] != 0 or r["json"] is None:
@@ -168,12 +168,13 @@ def cases(draw, schema, cfg):
     referenced = set(r for i in pop["instances"] for r in p21gen.inst_refs(i))
     states = {}
     for inst in pop["instances"]:
-        if inst["id"] in partial_ids:
-            states[inst["id"]] = "I"
-        else:
-            choices = ["C", "C", "I", "N"] + (["D", "D"] if inst["id"] not in referenced else [])
-            states[inst["id"]] = draw(st.sampled_from(choices))
-    return {"pop": pop, "layout": layout, "blanks": [list(b) for b in blanks], "states": states}
+        # any state may be saved with any instance - also "complete" with an instance whose required attributes are
+        # still missing: the statement says the saved state is restored "including instances whose required
+        # attributes are still missing"
+        choices = ["C", "C", "I", "N"] + (["D", "D"] if inst["id"] not in referenced else [])
+        states[inst["id"]] = draw(st.sampled_from(choices))
+    return {"pop": pop, "layout": layout, "blanks": [list(b) for b in blanks], "states": states,
+            "strict": draw(st.booleans()), "partial_ids": sorted(partial_ids)}
 
 
 def apply_blanks(pop, blanks):
@@ -205,12 +206,18 @@ def case(ctx, x):
     if nt and len(ev.samples) < 2:
         sample = {"states": {str(k): v for k, v in states.items()}, "file": text[-800:]}
     ev.case(common.chash([c01.pop_canon(ctx, pop), x["blanks"], sorted(states.items())]), nt, classes=classes, sample=sample)
-    probs = oracle(ctx.lib, pop_exp, text, states, ctx.wd, tag)
+    strict = bool(x.get("strict"))
+    classes2 = ["reload-strict" if strict else "reload-lenient"]
+    if any(states[i] != "I" for i in x.get("partial_ids", []) if i in states):
+        classes2.append("partially-filled-saved-as-C/N/D")
+    for c_ in classes2:
+        ev.bump(c_)
+    probs = oracle(ctx.lib, pop_exp, text, states, ctx.wd, tag, strict)
     if probs:
         sig = c01.signature(probs)
         if ctx.known(sig):
             return
-        raise Found({"what": "; ".join(probs[:4]), "sig": sig, "pop_exp": pop_exp, "text": text, "states": {str(k): v for k, v in states.items()}})
+        raise Found({"what": "; ".join(probs[:4]), "sig": sig, "pop_exp": pop_exp, "text": text, "states": {str(k): v for k, v in states.items()}, "strict": strict})
 
 
 def main(tier, seed):
@@ -218,8 +225,8 @@ def main(tier, seed):
     cfg = {"max_inst": 8} if tier == "quick" else {"max_inst": 20}
     return farmcheck.run(PROP, "exploration", RULE, tier, seed, n_schemas, n_ex,
                          make_strategy=lambda lib: cases(lib["schema"], cfg), case_fn=case,
-                         confirm_fn=lambda lib, f, wd: bool(oracle(lib, f["pop_exp"], f["text"], {int(k): v for k, v in f["states"].items()}, wd, "confirm")),
-                         replay_files=lambda f: {"input.p21": f["text"], "case.json": json.dumps({"pop_exp": f["pop_exp"], "states": f["states"]})},
+                         confirm_fn=lambda lib, f, wd: bool(oracle(lib, f["pop_exp"], f["text"], {int(k): v for k, v in f["states"].items()}, wd, "confirm", f.get("strict", False))),
+                         replay_files=lambda f: {"input.p21": f["text"], "case.json": json.dumps({"pop_exp": f["pop_exp"], "states": f["states"], "strict": f.get("strict", False)})},
                          schema_cfg=c01.SCHEMA_CFG)
 
 
@@ -229,7 +236,7 @@ def replay(path):
         common.print_violation(PROP, path, "schema does not build")
         return 1
     c = json.load(open(os.path.join(path, "case.json")))
-    probs = oracle(lib, c["pop_exp"], open(os.path.join(path, "input.p21")).read(), {int(k): v for k, v in c["states"].items()}, root, "replay")
+    probs = oracle(lib, c["pop_exp"], open(os.path.join(path, "input.p21")).read(), {int(k): v for k, v in c["states"].items()}, root, "replay", c.get("strict", False))
     shutil.rmtree(root, ignore_errors=True)
     if probs:
         common.print_violation(PROP, path, "; ".join(probs[:5]))
